@@ -1,5 +1,5 @@
 """Registry of the claimed properties: Lean module, correspondence parts, trusted base."""
-from .domains import upcast, bus, store, state, names
+from .domains import upcast, bus, store, state, names, resume, conc
 
 COMMON_ASSUME = [
     "the hand-written Lean model equals the Go code only on the inputs the correspondence ran (differential testing, reported under coverage)",
@@ -99,4 +99,15 @@ PROPS.update({
         extra_coverage=lambda: {"exhaustive": True},
         level_text="Proof over the whole (finite) quantifier: for every shape and every route the name used equals EventType's (names_agree), hence a persisted event is matched by its typed replay subscription and typed upcasters; the custom name is used exactly per Go's method-set rule. The model is validated against the compiler by instantiating every shape as a real Go type and observing the name each route actually uses (exhaustive).",
         level_note="Trusted: Lean kernel (+propext); the harness; Go reflection semantics. The theorem is only as good as the model's claim that each route uses the mechanism it names; that claim is what the exhaustive correspondence checks on every run."),
+})
+
+PROPS.update({
+    "C12": dict(module="Ebu.Props.C12", ready=True,
+        parts=[dict(name="resume12", domain="resume", domain_module="resume", gen=resume.gen, n_quick=400, n_thorough=15000, chunk=64)],
+        rule="random histories of publishes (3 event types), SubscribeWithReplay calls (2 ids, each with its own type, sometimes with a handler that publishes during the replay) and restarts on the memory and SQLite (file) stores, under a plan: the k-th store operation (Append/LoadOffset/ReadStream/SaveOffset, counted over the whole history) fails and/or the process dies right after the k-th store operation, k uniform over the history; every history ends with restart + resubscribe so that coverage is observable; non-trivial = something was delivered and a restart happened mid-history",
+        trusted_base=["the store is an append-only log with resumable offsets (proved of memory and SQLite in C10)", "process death is modelled as 'everything after the crash point is unobservable and unpersisted' on the same store object (real SIGKILL durability is C14)"],
+        assumptions=COMMON_ASSUME + ["serialised histories: publishes do not overlap each other or a running SubscribeWithReplay (the overlapping case is the recorded finding)"],
+        known_finding_checks=[resume.known_c12],
+        level_text="Proof: in fault-free well-formed histories what a subscription has been given is always a prefix of the persisted events of its type in log order, each once, and everything once it is live; under ANY plan (crash after any store operation and/or failure of any single store operation) the persisted events of its type are, in order, a subsequence of what a live subscription was given (nothing lost, nothing reordered); the saved offset never moves backwards when no id is subscribed while it is already live, and never exceeds the log; different ids are independent. Known finding proved as witness theorems: events published during SubscribeWithReplay are lost (publish_during_replay_lost), and with a duplicate live id the saved offset can move backwards (saved_offset_monotone_counterexample).",
+        level_note="Trusted: Lean kernel + 3 standard axioms; correspondence harness (counting store wrapper injects the failure / death); C10 for the stores. The 'schedules' part of the quantifier (a publish interleaved at any point of a running SubscribeWithReplay from another goroutine) is covered only in its re-entrant form (the handler publishes during the replay) – partial. KNOWN FINDINGS reported on every run."),
 })
